@@ -19,6 +19,9 @@
    op "curve" on-curve decision of a mutated point lib ok|reject, ossl ok|reject
    op "pemrep" a PEM loader on another text representation of a PEM file (CRLF, blank lines, ...; str or bytes)
               loader, kind spki|sec1|pkcs8|ecparams, curve, variant, form, der, text, pub, priv, dok, dcurve, dpub, dpriv
+   op "smut"  a decoder on a structurally edited key file (TLV tree edits written back with correct lengths)
+              dec, kind spki|sec1|pkcs8|ecparams, cpe, curve, edits, benign (only OPTIONAL members dropped / seed inserted),
+              data (the file; [] where the verdict does not need it), pub, priv, out, cls, mro, site, dcurve, dpub, dpriv
    op "proxy" the crypto plug-in's key classes (register_crypto_plugin) as decoders, valid and damaged input
               entry raw|registry-raw|der|registry-der|decrypt|priv-der, mk, pos, val, input, out ok|raise, cls, mro,
               rraw, rder (the key that came out); paired route on pin: pout, pcls, pmro, praw, pder
@@ -205,11 +208,26 @@ ParseAny(kind, s) ==
         LET P == ParseParams(s, 1, Len(s)) IN
         [ok |-> P.ok, err |-> P.err, cpe |-> P.cpe, oid |-> P.oid, L |-> P.L, priv |-> <<>>, point |-> <<>>, ver |-> 0, vpos |-> 0]
     ELSE ParseKind(kind, s)
+\* the AlgorithmIdentifier of a SubjectPublicKeyInfo names another curve / another kind of field: the file is then a key of
+\* a curve the library does not know whatever else is wrong with it (UnknownCurveError is the documented answer)
+AlgOfOtherCurve(s) ==
+    LET top == Tlv(s, 1, Len(s))
+        a   == Tlv(s, top.cs, top.ce)
+        P   == ParseAlg(s, a)
+    IN  top.ok /\ top.tag = T_SEQ /\ a.ok /\ ((P.ok /\ P.cpe = "named" /\ P.oid # OidBody(P256)) \/ P.err = "ecparams-fieldtype")
 SmutErrOk(ev) ==
     IF ev.dec = "plugin.PublicEccKeyProxy.create_from_der_fmt" THEN
         \/ HasCls(ev.mro, "ValueError")
-        \/ HasCls(ev.mro, "UnknownCurveError") /\ (OtherNamedCurve(ev.data) \/ ParseSPKI(ev.data).err = "ecparams-fieldtype")
+        \/ HasCls(ev.mro, "UnknownCurveError") /\ AlgOfOtherCurve(ev.data)
     ELSE \E k \in 1..Len(ev.mro) : ev.mro[k] \in Documented
+\* Where the specification defines the outcome of a structurally edited file.  The decoders are lenient BY DOCUMENTATION in
+\* these places: ECParameters is an extensible SEQUENCE whose seed / cofactor / field-element lengths are not validated
+\* (curves.py), the publicKey [1] and everything after the privateKey is "ignored completely", PKCS#8 attributes likewise,
+\* id-ecDH / id-ecMQV are accepted as private-key algorithms (keys.py).  Everything else the shape parsers reject must be rejected.
+LenientAlways == {"ecparams-seed", "ecparams-cofactor", "ecparams-field-element-length"}
+LenientPrivate == LenientAlways \cup {"sec1-trailing-data", "sec1-public-key", "sec1-optional-element", "pkcs8-optional-element",
+                                     "params-tag", "params-oid", "params-trailing-data", "tlv-missing", "alg-oid"}
+MustRejectStruct(kind, err) == IF kind \in {"spki", "ecparams"} THEN err \notin LenientAlways ELSE err \notin LenientPrivate
 VSmut(ev) ==
     LET P == ParseAny(ev.kind, ev.data) IN
     IF ev.out = "raise" /\ ~SmutErrOk(ev) THEN "undocumented-error"
@@ -221,7 +239,7 @@ VSmut(ev) ==
          ELSE IF ev.kind # "ecparams" /\ ev.dpub # ev.pub THEN "valid-structure-decoded-public"
          ELSE IF ev.dpriv # ev.priv THEN "valid-structure-decoded-private"
          ELSE "ok")
-    ELSE IF ev.out = "ok" /\ ~P.ok THEN P.err
+    ELSE IF ev.out = "ok" /\ ~P.ok /\ MustRejectStruct(ev.kind, P.err) THEN "malformed-structure-accepted"
     ELSE "ok"
 
 VCurve(ev) == IF ev.lib = ev.ossl THEN "ok" ELSE "on-curve-decision-differs"
